@@ -904,8 +904,10 @@ theorem co_bulkUpdate_reduce (hlen : c.length = xs.length) (u : UMap T) (hwf : u
     have hmx := hkeys mx h1
     have hall : ∀ q ∈ u.entries, q.1 < mx + 1 := fun q hq => by
       have := h2 q.1 ((UMap.get_isSome_iff u q.1).2 ⟨q.2, hq⟩); omega
+    have hmaxkey : ¬ ((u.get (2 ^ 64 - 1)).isSome = true) := fun hh => by
+      have := hkeys _ hh; omega
     simp only
-    rw [if_neg (by omega), hlen]
+    rw [if_neg (by omega), if_neg hmaxkey, hlen]
     have hr1 : u.range xs.length (2 ^ 64 - 1) = u.range xs.length (mx + 1) :=
       (range_upper_congr u xs.length (mx + 1) (2 ^ 64 - 1) hall (by omega)).symm
     rw [hr1, co_gapCheckMax_eq mx _ _ (fun q hq => by
